@@ -3,7 +3,7 @@
    tokenSource and reformatDescription. *)
 From Coq Require Import String List NArith ZArith Bool.
 From J5V.lib Require Import Text Outcome Corr.
-From J5V.model Require Import BclLexer BclParser BclFmt BclCli.
+From J5V.model Require Import BclLexer BclParser BclFmt BclCli BclFmtAligned.
 Import ListNotations.
 Local Open Scope bool_scope.
 
@@ -31,7 +31,11 @@ Inductive fmtcase :=
 | CReflow (input : list N) (maxw : Z) (out : list (list N))
 (* `j5 j5s fmt` (runJ5sFmt) on a file tree: target 0 = --dir, 1 = --file fpath, 2 = both; the files before and
    after (same order), and whether the command returned an error *)
-| CCli (target : N) (fpath : path) (write : bool) (before after : tree) (failed : bool).
+| CCli (target : N) (fpath : path) (write : bool) (before after : tree) (failed : bool)
+(* FmtDiffs(y) for a text y the real formatter returned (y = Fmt(x)): the edits observed (normally none); the model
+   must compute the same list AND the second run's diffs must satisfy extent_ok, the hypothesis of
+   C19_formatted_no_edits_partial / C09_formatted_no_edits_partial *)
+| CFormatted (y : list N) (edits : list oedit).
 
 Definition entry_eqb (a b : path * list N) : bool := path_eqb (fst a) (fst b) && list_N_eqb (snd a) (snd b).
 
@@ -58,4 +62,9 @@ Definition fmt_check (c : fmtcase) : bool :=
     let out := run_fmt (if N.eqb target 0 then TDir else if N.eqb target 1 then TFile fpath else TBoth fpath) write before in
     list_eqb entry_eqb (fs_after out) after &&
     Bool.eqb (match failed out with Some _ => true | None => false end) failed_obs
+  | CFormatted y edits =>
+    match fmt_diffs y with
+    | Ok es => list_eqb oedit_eqb (map edit_obs es) edits && extent_ok_of y
+    | _ => false
+    end
   end.
